@@ -70,6 +70,10 @@ THEOREMS = [
     "Verif.C11.psdOr_lorentz_diode",
     "Verif.C11.fit_recovery_unique_model",
     "Verif.C11.driven_power_peak_is_max",
+    "Verif.C11.fit_parameter_vector_is_routable",
+    "Verif.C11.generating_parameters_within_bounds",
+    "Verif.C11.twin_within_bounds",
+    "Verif.C11.analytic_lorentzian_exact_of_two_frequencies",
 ]
 RULE = (
     "corpus (8 representative + the open finding F-C11-1) + exhaustive option matrix (hydro x axial x distance{None, at the "
@@ -103,7 +107,8 @@ RULE = (
     "compares (frequency, amplitude, amp_std) or the error; a deterministic small scope (3 frequencies x 6 guess offsets "
     "incl. peak outside the search range and search range beyond Nyquist x {no, stronger, weaker} second tone inside the "
     "range) exercises the peak search; the raise statements of lk.fit_power_spectrum are run over npts {3,4,5,12} x loss "
-    "{gaussian, lorentzian, unknown} x bias correction x {non-empty, empty} analytical range (op c11.fitvalidate)."
+    "{gaussian, lorentzian, unknown} x bias correction x {non-empty, empty} analytical range (op c11.fitvalidate); initial values and bounds of the filter parameters for every filter shape x two sample rates (op "
+    "c11.fitbounds)."
 )
 TRUSTED = [
     "RealLike formulas are proved over the reals and executed at Float: rounding is not modelled, the comparison "
@@ -352,7 +357,7 @@ def impl(case):
 
 
 def n_ops(case):
-    return {"passive": 1, "psd": 1, "active": 1, "route": 3, "anl": 1, "fit": 4, "drive": 1, "fitval": 1, "filter": 1, "calib": 1}[case["op"]]
+    return {"passive": 1, "psd": 1, "active": 1, "route": 3, "anl": 1, "fit": 4, "drive": 1, "fitval": 1, "bounds": 1, "filter": 1, "calib": 1}[case["op"]]
 
 
 def _impl(case, k):
@@ -415,6 +420,15 @@ def _impl(case, k):
         return impl_fit(case)
     if k == "calib":
         return impl_calib(case)
+    if k == "bounds":
+        cm = _cm()
+        if case["kind"] == "nofilter":
+            f = cm.NoFilter()
+        elif case["kind"] == "diode":
+            f = cm.DiodeModel()
+        else:
+            f = cm.FixedDiodeModel(case["fixed"][0], case["fixed"][1])
+        return ["ok " + " ".join(show_floats([float(v) for v in vals]) for vals in (f.initial_values, f.lower_bounds(), f.upper_bounds(case["rate"])))]
     if k == "fitval":
         # argument validation of lk.fit_power_spectrum on an exact Lorentzian of `npts` bins (fast sensor: 2 parameters)
         lk = _pub()
@@ -814,6 +828,9 @@ def ops(case):
             f"{enc_float(info['fc'])} {enc_float(info['D'])} {enc_float(info['efc'])} "
             f"{enc_float(info['eD'])} {fl(info['pars'])}{powers_token(meas)}"
         ]
+    if k == "bounds":
+        kind = case["kind"] if case["kind"] != "fixed" else f"fixed {eo(case['fixed'][0])} {eo(case['fixed'][1])}"
+        return [f"c11.fitbounds {kind} {enc_float(case['rate'])}"]
     if k == "fitval":
         return [f"c11.fitvalidate {case['npts']} {case['loss']} {enc_bool(case['bias'])} {case['npts'] if case['anl'] else 0}"]
     if k == "drive":
@@ -1367,7 +1384,7 @@ def nontrivial(case, ia):
         return ia[1].startswith("ok")
     if k == "calib":
         return ia[0].startswith("ok") or o_valid(case["o"], case.get("fixed")) is not None
-    if k in ("drive", "fitval"):
+    if k in ("drive", "fitval", "bounds"):
         return True
     return False
 
@@ -1910,6 +1927,14 @@ def cases(tier, rng):
     for _ in range(30 if quick else 400):
         yield drive_case(r, "exploration-drive", quick)
     yield from drive_scope()
+    # ---- start values and bounds of the filter parameters: every filter shape x two sample rates (+ invalid fixed values)
+    for rate in (78125.0, 50000.0):
+        yield {"stream": "scope-fit-bounds", "op": "bounds", "kind": "nofilter", "rate": rate}
+        yield {"stream": "scope-fit-bounds", "op": "bounds", "kind": "diode", "rate": rate}
+        for fixed in ([None, None], [9000.0, None], [None, 0.25], [12000.0, 0.5], [None, 0.0], [None, 1.0]):
+            yield {"stream": "scope-fit-bounds", "op": "bounds", "kind": "fixed", "fixed": fixed, "rate": rate}
+        for fixed in ([None, 1.5], [0.0, None], [-3.0, 0.5]):
+            yield {"stream": "malformed", "op": "bounds", "kind": "fixed", "fixed": fixed, "rate": rate}
     # ---- argument validation of fit_power_spectrum: exhaustive small scope (deterministic)
     for npts, loss, bias, anl in itertools.product((3, 4, 5, 12), ("gaussian", "lorentzian", "huber"), (False, True), (True, False)):
         yield {"stream": "scope-fit-validation", "op": "fitval", "npts": npts, "loss": loss, "bias": bias, "anl": anl}
